@@ -354,6 +354,18 @@ pub fn run(ctx: &Ctx) -> Result<Run, String> {
         odd.push(vec!["a"; l].join("."));
         odd.push(format!("{}.ck", vec!["k"; l].join(".")));
     }
+    // labels of 256 + k bytes whose first k bytes are a label of the table (lengths that do not fit a
+    // byte), at every level of a sample of rules and of fixed names
+    for filler in [256usize, 257, 512, 65536] {
+        for base in ["www.co.uk", "a.b.www.ck", "x.blogspot.com", "example.com", "a.kobe.jp"].iter().map(|s| s.to_string()).chain(names.iter().step_by(97).cloned()) {
+            let labels: Vec<&str> = base.split('.').collect();
+            for i in 0..labels.len() {
+                let mut l: Vec<String> = labels.iter().map(|s| s.to_string()).collect();
+                l[i] = format!("{}{}", labels[i], "z".repeat(filler));
+                odd.push(l.join("."));
+            }
+        }
+    }
     for s in ["", ".", "..", "...", ".com", "com.", "a..com", "COM", "Example.COM", "www.CK", "食狮.公司.cn", "公司.cn", "xn--55qx5d.cn", "\u{0}", "a\u{0}.com", " ", "a b.com", "*.ck", "!www.ck", "*", "!", "com.*", "\u{fffd}.com", "ⓔxample.com"] {
         odd.push(s.to_string());
     }
